@@ -391,6 +391,16 @@ func runReaderOp(prop string, seg, other segment.Segment, want, wantOther *spec.
 		if !reflect.DeepEqual(bm.ToArray(), exp) {
 			return violation(prop, "stress/docnumbers-mismatch", "goroutine %d: DocNumbers(%q)=%v model %v", g, id, bm.ToArray(), exp)
 		}
+		// a result belongs to its caller, who goes on modifying it - also a result without any hit
+		bm.Add(0xfffffff0 + uint32(g))
+		none, err := seg.DocNumbers([]string{"nosuchid", "\x02nor-this\x02"})
+		if err != nil {
+			return violation(prop, "stress/error", "DocNumbers: %v", err)
+		}
+		if !none.IsEmpty() {
+			return violation(prop, "stress/docnumbers-mismatch", "goroutine %d: DocNumbers of absent ids = %v", g, none.ToArray())
+		}
+		none.Add(0xffffff00 + uint32(g))
 	case 6: // doc values with a private state over a few docs
 		dvs := seg.(segment.DocValueVisitable)
 		var st segment.DocVisitState
@@ -398,7 +408,9 @@ func runReaderOp(prop string, seg, other segment.Segment, want, wantOther *spec.
 			n := uint64((op.A + k*op.B) % nd)
 			got := map[string][]string{}
 			var err error
-			st, err = dvs.VisitDocValues(n, want.Fields, func(field string, term []byte) {
+			// every goroutine passes the SAME field list (a reader shares one list among all segments
+			// and goroutines); it starts with a name the segment does not know
+			st, err = dvs.VisitDocValues(n, stressDVFields, func(field string, term []byte) {
 				got[field] = append(got[field], string(term))
 			}, st)
 			if err != nil {
@@ -581,6 +593,10 @@ func runReaderOp(prop string, seg, other segment.Segment, want, wantOther *spec.
 	return nil
 }
 
+// stressDVFields is the one doc-value field list all goroutines of a stress case pass (set before
+// they start, never written by the harness afterwards).
+var stressDVFields []string
+
 func runStressCase(c stressCase) *Violation {
 	const prop = "C11"
 	zap.VerifResetPools()
@@ -591,6 +607,8 @@ func runStressCase(c stressCase) *Violation {
 		defer func() { zap.LegacyChunkMode = old }()
 	}
 	want, wantOther := spec.Expect(c.Batch), spec.Expect(c.Other)
+	stressDVFields = append([]string{"\x01no-such-field"}, want.Fields...)
+	pristineDVFields := append([]string(nil), stressDVFields...)
 	mergeWant := func(dropDoc int) *spec.Obs {
 		p := &spec.MergePlan{Children: []spec.MergePlan{{Leaf: c.Batch}, {Leaf: c.Other}}, Drops: []spec.DropSpec{{Nil: true}, {Nil: true}}}
 		if dropDoc >= 0 {
@@ -636,6 +654,9 @@ func runStressCase(c stressCase) *Violation {
 		if r != nil {
 			return r
 		}
+	}
+	if !reflect.DeepEqual(stressDVFields, pristineDVFields) {
+		return violation(prop, "stress/field-list-modified", "the field list shared by all doc-value visits was changed from %q to %q", pristineDVFields, stressDVFields)
 	}
 	return nil
 }
